@@ -48,3 +48,36 @@ pub fn c13_astro_day_triple() {
     }
     assert!(ad.julian_day.value.to_bits() == v.to_bits(), "C13 AstroDay keeps its Julian Day");
 }
+
+// C10 — new_coords recomputes the topocentric day from the SAME geocentric day with the substituted coordinates
+pub static mut FA_JD: u64 = 0;
+pub static mut FA_RA: [u64; 3] = [0; 3];
+pub static mut FA_COORDS: [u64; 3] = [0; 3];
+pub fn from_ad_spy(astro_day: AstroDay, coords: Coordinates) -> TopAstroDay {
+    unsafe {
+        FA_JD = astro_day.julian_day.value.to_bits();
+        FA_RA = [astro_day.astros[0].ra.to_bits(), astro_day.astros[1].ra.to_bits(), astro_day.astros[2].ra.to_bits()];
+        FA_COORDS = [f64::from(coords.latitude).to_bits(), f64::from(coords.longitude).to_bits(), f64::from(coords.elevation).to_bits()];
+    }
+    let a = astro_day.astros[1];
+    TopAstroDay { astro_day, coords, astros: vec![a, a, a] }
+}
+#[kani::proof]
+#[kani::unwind(5)]
+#[kani::stub(TopAstroDay::from_ad, from_ad_spy)]
+pub fn c10_new_coords_reuses_day() {
+    let f = |lo: f64, hi: f64| { let v: f64 = kani::any(); kani::assume(v >= lo && v <= hi); v };
+    let mk = |ra: f64| Astro { dra: 0., dec: 1., ra, rsum: 1., sid_time: 2. };
+    let (r0, r1, r2) = (f(0., 360.), f(0., 360.), f(0., 360.));
+    let jd = JulianDay { date: chrono::NaiveDate::from_yo_opt(2023, 100).unwrap(), gmt: crate::geo::coordinates::Gmt::try_from(0.).unwrap(), value: f(2.3e6, 2.6e6) };
+    let c0 = Coordinates::new(crate::geo::coordinates::Latitude::try_from(f(-90., 90.)).unwrap(), crate::geo::coordinates::Longitude::try_from(f(-180., 180.)).unwrap(), crate::geo::coordinates::Elevation::try_from(0.).unwrap());
+    let c1 = Coordinates::new(crate::geo::coordinates::Latitude::try_from(f(-90., 90.)).unwrap(), c0.longitude, c0.elevation);
+    let t = TopAstroDay { astro_day: AstroDay { astros: vec![mk(r0), mk(r1), mk(r2)], julian_day: jd }, coords: c0, astros: vec![mk(r0), mk(r1), mk(r2)] };
+    kani::cover!(true, "VACUITY-GUARD reachable");
+    let n = t.new_coords(c1);
+    unsafe {
+        assert!(FA_JD == jd.value.to_bits() && FA_RA[0] == r0.to_bits() && FA_RA[1] == r1.to_bits() && FA_RA[2] == r2.to_bits(), "C10 the substitute-latitude day reuses the same day's geocentric ephemeris");
+        assert!(FA_COORDS[0] == f64::from(c1.latitude).to_bits() && FA_COORDS[1] == f64::from(c1.longitude).to_bits() && FA_COORDS[2] == f64::from(c1.elevation).to_bits(), "C10 the substituted coordinates are the ones used");
+    }
+    assert!(n.coords() == c1, "C10 new_coords reports the substituted coordinates");
+}
